@@ -76,7 +76,7 @@ def find_core_tokens(string, root):
             escaped = False
         i += 1
     if in_delimiter_run:
-        delimiters.append(Delimiter(start, i, string))
+        delimiters.append(Delimiter(start, i if not escaped else i - 1, string))
     process_emphasis(string, None, delimiters, matches)
     return matches
 
